@@ -117,7 +117,7 @@ func nearMisses(pat string) []string {
 	if strings.HasPrefix(base, "[") {
 		hosts = append(hosts, strings.Trim(base, "[]"), "["+strings.ToUpper(strings.Trim(base, "[]"))+"]")
 	} else {
-		hosts = append(hosts, "["+base+"]", strings.ToUpper(base))
+		hosts = append(hosts, "["+base+"]", strings.ToUpper(base), "[."+base+"]", "[a."+base+"]", "[]"+base, "[.]"+base)
 	}
 	ports := []string{"", ":80", ":443", ":65535", ":8080", ":1", ":0", ":65536", ":080"}
 	if port != "" && port != ":*" {
